@@ -6,6 +6,7 @@ import (
 	"go/types"
 	"runtime/debug"
 	"sort"
+	"strings"
 
 	"golang.org/x/tools/go/ssa"
 )
@@ -13,7 +14,7 @@ import (
 func newExec(eng *Engine, fn *ssa.Function) *Exec {
 	return &Exec{eng: eng, fn: fn, declIdx: map[string]int{}, keySort: map[string]Sort{}, abstractions: map[string]bool{},
 		usedAssumed: map[string]bool{}, usedContracts: map[string]bool{}, inlined: map[string]bool{}, modelled: map[string]bool{},
-		pathIDs: map[string]int{}, loopCache: map[*ssa.Function]map[int]*loopInfo{}, budget: 3000000}
+		defBody: map[string]string{}, nameCache: map[*ssa.Function]map[string]ssa.Value{}, keyKind: map[string]LeafKind{}, pathIDs: map[string]int{}, loopCache: map[*ssa.Function]map[int]*loopInfo{}, budget: 3000000}
 }
 
 type FuncResult struct {
@@ -68,11 +69,13 @@ func (eng *Engine) verifyFunction(fn *ssa.Function, c *FuncContract, checkLocks 
 	st.allocTop = e.declare("top0", SInt)
 	st.now = e.declare("now0", SInt)
 	st.assert(Le(Zero, st.allocTop))
+	st.epochTop = st.allocTop
 	st.pathID = "p0"
 	e.pathN = 0
 	var args []Value
 	for _, p := range fn.Params {
 		v := e.freshValue(st, p.Type(), "arg."+p.Name())
+		zeroSliceOffsets(&v)
 		args = append(args, v)
 	}
 	var bind []Value
@@ -125,6 +128,7 @@ func (eng *Engine) verifyFunction(fn *ssa.Function, c *FuncContract, checkLocks 
 			e.obls = append(e.obls, o)
 		}
 	}
+	e.assumeGlobalInv(st)
 	e.top.entry = st.heapSnapshot()
 	e.top.entryLocks = lockSig(st)
 	if !e.enterFirst(st) {
@@ -214,6 +218,7 @@ func (e *Exec) topEnv(st *State, fr *Frame, res []Value, post bool) *SpecEnv {
 	for i, fv := range e.fn.FreeVars {
 		if i < len(fr.bind) && fr.bind[i].P != nil {
 			env.vars["&"+fv.Name()] = fr.bind[i]
+			env.vars[fv.Name()+"$ptr"] = fr.bind[i]
 			env.vars[fv.Name()] = e.loadPlace(st, fr.bind[i].P, nil)
 		}
 	}
@@ -267,6 +272,7 @@ func (e *Exec) finishPath(st *State, fr *Frame, res []Value, pos token.Pos, pani
 	if panicked {
 		return
 	}
+	e.checkGlobalInv(st, pos)
 	e.frameObligations(st, c, pos)
 }
 
@@ -285,6 +291,14 @@ func (e *Exec) frameObligations(st *State, c *FuncContract, pos token.Pos) {
 	envEntry := &SpecEnv{e: e, st: st, vars: map[string]Value{}, pkg: e.top.pkg, view: entry, what: "assigns of " + c.Key}
 	for n, v := range e.top.params {
 		envEntry.vars[n] = v
+	}
+	if fr := st.frames[0]; fr != nil {
+		for i, fv := range e.fn.FreeVars {
+			if i < len(fr.bind) && fr.bind[i].P != nil {
+				envEntry.vars[fv.Name()] = e.loadPlace(st, fr.bind[i].P, entry)
+				envEntry.vars[fv.Name()+"$ptr"] = fr.bind[i]
+			}
+		}
 	}
 	targets := e.assignTargets(envEntry, c, c.Assigns)
 	byKey := map[string][]assignTarget{}
@@ -309,7 +323,7 @@ func (e *Exec) frameObligations(st *State, c *FuncContract, pos token.Pos) {
 			// changed by other goroutines while this one was blocked, not by this function
 			continue
 		}
-		if k == "ghost:closedAt" {
+		if k == "ghost:closedAt" || strings.HasPrefix(k, "ghost:spawned:") {
 			// write-once companion of closed(): determined by the close events
 			continue
 		}
@@ -385,4 +399,20 @@ func (eng *Engine) lemmaObligations(tag string) (*FuncResult, error) {
 		}
 	}
 	return res, nil
+}
+
+// zeroSliceOffsets: slice-typed inputs (other than byte slices, which are
+// routinely re-sliced) are taken to start at offset 0 of their backing array.
+func zeroSliceOffsets(v *Value) {
+	ls := flatten(v.T)
+	for i, l := range ls {
+		if strings.HasSuffix(l.Suffix, "#off") {
+			if sl, ok := v.T.Underlying().(*types.Slice); ok && len(ls) == 3 {
+				if b, ok := sl.Elem().Underlying().(*types.Basic); ok && b.Kind() == types.Uint8 {
+					continue
+				}
+			}
+			v.L[i] = Zero
+		}
+	}
 }
